@@ -779,6 +779,15 @@ def char_class_rule(F, rep):
                           "feel-parser/src/lexer.rs")
         else:
             rep.ok(rid, key, "%d characters, as in the grammar" % len(got))
+    # one notion of white space: a lexer function that asks the standard library (Unicode White_Space lacks U+180E, U+200B, U+FEFF and has no notion of FEEL's vertical
+    # space) disagrees with the grammar on those characters - at a token boundary the keyword / name decision then differs from the skipping
+    for n, h in sorted(F.hir.items()):
+        if not n.startswith("dmntk_feel_parser::lexer::") or "body" not in h or "::tests::" in n:
+            continue
+        for c, _ in find_hir(h["body"], lambda x: x.get("k") in ("Call", "MethodCall") and re.search(r"core::char::methods::<impl char>::is_(ascii_)?whitespace$", x.get("callee") or "")):
+            rep.violation(rid, "foreign-class:%s" % n.split("::")[-1], "%s tests white space with %s instead of the lexer's own class: the two sets differ (U+180E, U+200B, U+FEFF ...), "
+                          "so a token followed by such a character is delimited differently from how the character is skipped" % (n.split("::")[-1], c["callee"].split("::")[-1]),
+                          "%s:%s" % (h["file"], c.get("l")))
 
 
 BINARY_ACTIONS = ("addition", "subtraction", "multiplication", "division", "exponentiation", "conjunction", "disjunction")
